@@ -140,16 +140,38 @@ Proof.
   exact Hp.
 Qed.
 
+(* common divisors of the two numbers divide gcd(x, M): used for termination only
+   (u = v can then only happen at u = v = 1 when gcd(x, M) = 1) *)
+Definition RP (x h o : Z) : Prop := forall g, (g | h) -> (g | o) -> (g | Z.gcd x M).
+
+Lemma RP_sym x h o : RP x h o -> RP x o h.
+Proof. intros H g Ho Hh. apply H; assumption. Qed.
+
+Lemma RP_half x h h' o : h = 2 * h' -> RP x h o -> RP x h' o.
+Proof. intros -> H g Hh Ho. apply H; [|exact Ho]. apply Z.divide_mul_r. exact Hh. Qed.
+
+Lemma RP_sub x h o : RP x h o -> RP x (h - o) o.
+Proof.
+  intros H g Hh Ho. apply H; [|exact Ho].
+  replace h with ((h - o) + o) by ring. apply Z.divide_add_r; assumption.
+Qed.
+
+Lemma RP_diag x h : Z.gcd x M = 1 -> 0 < h -> RP x h h -> h = 1.
+Proof.
+  intros Hg Hh H. specialize (H h (Z.divide_refl h) (Z.divide_refl h)). rewrite Hg in H.
+  apply Z.divide_1_r_nonneg in H; lia.
+Qed.
+
 (* invariant of a halving loop: h is the number being halved (u or v), K its cofactor (d or a),
    o the other number, Ko the other cofactor; sg = 1 for (v,a), -1 for (u,d) *)
 Definition HV (x sg o Ko h K : Z) : Prop :=
-  0 < h /\ 0 <= K /\ (M | K * x - sg * h) /\
+  0 < h /\ 0 <= K /\ (M | K * x - sg * h) /\ RP x h o /\
   exists n, pot h o n /\ 2 * Ko <= (n + 2) * M /\
             (2 * K <= (n + 2) * M \/ (h mod 2 = 0 /\ K <= (n + 2) * M)).
 
 Lemma HV_bound x sg o Ko h K : 0 < o -> HV x sg o Ko h K -> K <= 259 * M.
 Proof.
-  intros Ho (Hh & HK & _ & n & Hp & _ & Hor).
+  intros Ho (Hh & HK & _ & _ & n & Hp & _ & Hor).
   pose proof (pot_bound h o n Hh Ho Hp) as Hn. destruct Hp as [Hn0 _].
   unfold M in *. lia.
 Qed.
@@ -157,12 +179,23 @@ Qed.
 Lemma HV_step x sg o Ko h K h' K' e : 0 < o -> HV x sg o Ko h K ->
   h = 2 * h' -> 2 * K' = K + e * M -> 0 <= e <= 1 -> HV x sg o Ko h' K'.
 Proof.
-  intros Ho (Hh & HK & Hd & n & Hp & HKo & Hor) Eh EK He.
+  intros Ho (Hh & HK & Hd & Hrp & n & Hp & HKo & Hor) Eh EK He.
   split; [lia|]. split; [unfold M in *; lia|]. split.
-  - apply (cg_halve x K (sg * h) K' (sg * h') e EK); [rewrite Eh; ring|exact Hd].
-  - exists (n + 1). split; [apply (pot_half h h' o n Eh Hp)|].
-    destruct Hp as [Hn0 _]. split; [unfold M in *; lia|]. left. unfold M in *. lia.
+  { apply (cg_halve x K (sg * h) K' (sg * h') e EK); [rewrite Eh; ring|exact Hd]. }
+  split; [exact (RP_half x h h' o Eh Hrp)|].
+  exists (n + 1). split; [apply (pot_half h h' o n Eh Hp)|].
+  destruct Hp as [Hn0 _]. split; [unfold M in *; lia|]. left. unfold M in *. lia.
 Qed.
+
+Lemma HV_exit_odd x sg o Ko h K : HV x sg o Ko h K -> h mod 2 <> 0 ->
+  exists n, pot h o n /\ 2 * Ko <= (n + 2) * M /\ 2 * K <= (n + 2) * M.
+Proof.
+  intros (_ & _ & _ & _ & n & Hp & HKo & Hor) Hodd. exists n. split; [exact Hp|]. split; [exact HKo|].
+  destruct Hor as [Ht|[He _]]; [exact Ht|contradiction].
+Qed.
+
+Lemma pow2_fuel (k : Z) (fuel : nat) : 0 <= k <= Z.of_nat fuel -> 2^k <= 2 ^ Z.of_nat fuel.
+Proof. intros H. apply Z.pow_le_mono_r; lia. Qed.
 
 (* ------------------------------------------------------------------ limb shifts and the conditional +M *)
 Lemma lor_hi x b : 0 <= x < 2^63 -> 0 <= b <= 1 -> Z.lor x (shl 64 b 63) = x + b * 2^63.
@@ -248,13 +281,16 @@ Proof.
 Qed.
 
 (* ------------------------------------------------------------------ halving loop for (u, d) *)
+Definition Uh (s : Z * Z * Z * Z * Z * Z) : Z := let '(d0, d1, d2, u0, u1, u2) := s in V3 u0 u1 u2.
+
 Definition HI (x v A : Z) (s : Z * Z * Z * Z * Z * Z) : Prop :=
   let '(d0, d1, d2, u0, u1, u2) := s in
   L3 d0 d1 d2 /\ L3 u0 u1 u2 /\ HV x (-1) v A (V3 u0 u1 u2) (V3 d0 d1 d2).
 
-Lemma hdu_step x v A : 0 < v -> forall s, HI x v A s -> hdu_cond s = true -> HI x v A (hdu_body s).
+Lemma hdu_step2 x v A : 0 < v -> forall s, HI x v A s -> hdu_cond s = true ->
+  HI x v A (hdu_body s) /\ 2 * Uh (hdu_body s) = Uh s.
 Proof.
-  intros Hv [[[[[d0 d1] d2] u0] u1] u2]. unfold HI, hdu_cond, hdu_body.
+  intros Hv [[[[[d0 d1] d2] u0] u1] u2]. unfold HI, Uh, hdu_cond, hdu_body.
   intros (Ld & Lu & H) Hc.
   pose proof (HV_bound _ _ _ _ _ _ Hv H) as Hb.
   pose proof (halveM_spec d0 d1 d2 Ld ltac:(unfold M in *; lia)) as Hd.
@@ -262,41 +298,127 @@ Proof.
   pose proof (shr192_spec u0 u1 u2 Lu) as Hu.
   destruct (shr192 u0 u1 u2) as [[u0' u1'] u2']. destruct Hu as (Lu' & Eu).
   destruct (shr192 t0 t1 t2) as [[d0' d1'] d2']. destruct Hd as (Ld' & e & He & Ed).
-  split; [exact Ld'|]. split; [exact Lu'|].
   rewrite land1 in Hc. apply Z.eqb_eq in Hc. rewrite Hc, Z.add_0_r in Eu.
+  split; [|lia].
+  split; [exact Ld'|]. split; [exact Lu'|].
   exact (HV_step x (-1) v A _ _ _ _ e Hv H Eu Ed He).
 Qed.
 
+Lemma hdu_step x v A : 0 < v -> forall s, HI x v A s -> hdu_cond s = true -> HI x v A (hdu_body s).
+Proof. intros Hv s H Hc. exact (proj1 (hdu_step2 x v A Hv s H Hc)). Qed.
+
+Lemma HI_Uh x v A s : HI x v A s -> 0 < Uh s < 2^192.
+Proof.
+  destruct s as [[[[[d0 d1] d2] u0] u1] u2]. unfold HI, Uh. intros (_ & Lu & Hh & _).
+  pose proof (V3_nonneg _ _ _ Lu). lia.
+Qed.
+
+Lemma hdu_exit_odd s : hdu_cond s = false -> Uh s mod 2 <> 0.
+Proof.
+  destruct s as [[[[[d0 d1] d2] u0] u1] u2]. unfold hdu_cond, Uh. rewrite land1, V3_parity.
+  intros H. apply Z.eqb_neq in H. exact H.
+Qed.
+
+(* result of the loop: invariant, u odd, and at least one halving when u was even *)
+Lemma hdu_rel x v A fuel s s' : 0 < v -> HI x v A s -> while_loop fuel hdu_cond hdu_body s = Some s' ->
+  HI x v A s' /\ Uh s' mod 2 <> 0 /\ (Uh s mod 2 = 0 -> 2 * Uh s' <= Uh s).
+Proof.
+  intros Hv H0 W.
+  destruct (while_loop_inv (fun t => HI x v A t /\ (Uh t = Uh s \/ 2 * Uh t <= Uh s)) hdu_cond hdu_body)
+    with (fuel := fuel) (s := s) (r := s') as ((H' & Hr) & Hc); [| |exact W|].
+  - intros t [Ht Hr] Hc. destruct (hdu_step2 x v A Hv t Ht Hc) as [Ht' E].
+    split; [exact Ht'|]. pose proof (HI_Uh _ _ _ _ Ht'). right. lia.
+  - split; [exact H0|left; reflexivity].
+  - pose proof (hdu_exit_odd s' Hc) as Hodd.
+    split; [exact H'|]. split; [exact Hodd|]. intros Hev. destruct Hr as [E|Hle]; [|exact Hle].
+    rewrite E in Hodd. contradiction.
+Qed.
+
+Lemma hdu_total x v A fuel s : 0 < v -> HI x v A s -> (192 <= fuel)%nat ->
+  exists s', while_loop fuel hdu_cond hdu_body s = Some s'.
+Proof.
+  intros Hv H0 Hf.
+  apply (while_loop_term (fun n t => HI x v A t /\ Uh t < 2 ^ Z.of_nat n) hdu_cond hdu_body).
+  - intros t [Ht Hlt]. pose proof (HI_Uh _ _ _ _ Ht). change (2 ^ Z.of_nat 0) with 1 in Hlt. lia.
+  - intros n t [Ht Hlt] Hc. destruct (hdu_step2 x v A Hv t Ht Hc) as [Ht' E].
+    split; [exact Ht'|]. rewrite Nat2Z.inj_succ, Z.pow_succ_r in Hlt by lia. lia.
+  - split; [exact H0|]. pose proof (HI_Uh _ _ _ _ H0). pose proof (pow2_fuel 192 fuel ltac:(lia)). lia.
+Qed.
+
 (* ------------------------------------------------------------------ halving loop for (v, a) *)
+Definition vh (s : Z * Z * Z * Z) : Z := let '(a0, a1, a2, v) := s in v.
+
 Definition AI (x U D : Z) (s : Z * Z * Z * Z) : Prop :=
   let '(a0, a1, a2, v) := s in
   L3 a0 a1 a2 /\ 0 <= v < 2^128 /\ (v = 0 \/ HV x 1 U D v (V3 a0 a1 a2)).
 
-Lemma hav_step x U D : 0 < U -> forall s, AI x U D s -> hav_cond s = true -> AI x U D (hav_body s).
+Lemma hav_step2 x U D : 0 < U -> forall s, AI x U D s -> hav_cond s = true ->
+  AI x U D (hav_body s) /\ 2 * vh (hav_body s) = vh s.
 Proof.
-  intros HU [[[a0 a1] a2] v]. unfold AI, hav_cond, hav_body. cbv zeta.
+  intros HU [[[a0 a1] a2] v]. unfold AI, vh, hav_cond, hav_body. cbv zeta.
   intros (La & Hv & H) Hc. rewrite shr1.
   assert (Hv2 : 0 <= v / 2 < 2^128).
   { split; [apply Z.div_pos; lia|apply Z.div_lt_upper_bound; lia]. }
+  rewrite land1 in Hc. apply Z.eqb_eq in Hc.
+  assert (Ev : v = 2 * (v / 2)) by (pose proof (Z.div_mod v 2 ltac:(lia)); lia).
   destruct H as [->|H].
   - pose proof (cadd_M_limbs a0 a1 a2 La) as Hl.
     destruct (cadd_M a0 a1 a2) as [[t0 t1] t2].
     pose proof (shr192_spec t0 t1 t2 Hl) as Hs.
     destruct (shr192 t0 t1 t2) as [[r0 r1] r2]. destruct Hs as (Lr & _).
+    split; [|reflexivity].
     split; [exact Lr|]. split; [exact Hv2|]. left. reflexivity.
   - pose proof (HV_bound _ _ _ _ _ _ HU H) as Hb.
     pose proof (halveM_spec a0 a1 a2 La ltac:(unfold M in *; lia)) as Ha.
     destruct (cadd_M a0 a1 a2) as [[t0 t1] t2].
     destruct (shr192 t0 t1 t2) as [[r0 r1] r2]. destruct Ha as (Lr & e & He & Ea).
+    split; [|lia].
     split; [exact Lr|]. split; [exact Hv2|]. right.
-    rewrite land1 in Hc. apply Z.eqb_eq in Hc.
-    assert (Ev : v = 2 * (v / 2)) by (pose proof (Z.div_mod v 2 ltac:(lia)); lia).
     exact (HV_step x 1 U D _ _ _ _ e HU H Ev Ea He).
 Qed.
 
+Lemma hav_step x U D : 0 < U -> forall s, AI x U D s -> hav_cond s = true -> AI x U D (hav_body s).
+Proof. intros HU s H Hc. exact (proj1 (hav_step2 x U D HU s H Hc)). Qed.
+
+Lemma AI_vh x U D s : AI x U D s -> 0 <= vh s < 2^128.
+Proof. destruct s as [[[a0 a1] a2] v]. unfold AI, vh. intros (_ & H & _). exact H. Qed.
+
+Lemma hav_exit_odd s : hav_cond s = false -> vh s mod 2 <> 0.
+Proof.
+  destruct s as [[[a0 a1] a2] v]. unfold hav_cond, vh. rewrite land1.
+  intros H. apply Z.eqb_neq in H. exact H.
+Qed.
+
+Lemma hav_rel x U D fuel s s' : 0 < U -> AI x U D s -> while_loop fuel hav_cond hav_body s = Some s' ->
+  AI x U D s' /\ vh s' mod 2 <> 0 /\ (vh s mod 2 = 0 -> 2 * vh s' <= vh s).
+Proof.
+  intros HU H0 W.
+  destruct (while_loop_inv (fun t => AI x U D t /\ (vh t = vh s \/ 2 * vh t <= vh s)) hav_cond hav_body)
+    with (fuel := fuel) (s := s) (r := s') as ((H' & Hr) & Hc); [| |exact W|].
+  - intros t [Ht Hr] Hc. destruct (hav_step2 x U D HU t Ht Hc) as [Ht' E].
+    split; [exact Ht'|]. pose proof (AI_vh _ _ _ _ Ht'). right. lia.
+  - split; [exact H0|left; reflexivity].
+  - pose proof (hav_exit_odd s' Hc) as Hodd.
+    split; [exact H'|]. split; [exact Hodd|]. intros Hev. destruct Hr as [E|Hle]; [|exact Hle].
+    rewrite E in Hodd. contradiction.
+Qed.
+
+Lemma hav_total x U D fuel s : 0 < U -> AI x U D s -> 0 < vh s -> (128 <= fuel)%nat ->
+  exists s', while_loop fuel hav_cond hav_body s = Some s'.
+Proof.
+  intros HU H0 Hpos Hf.
+  apply (while_loop_term (fun n t => AI x U D t /\ 0 < vh t < 2 ^ Z.of_nat n) hav_cond hav_body).
+  - intros t [Ht Hlt]. change (2 ^ Z.of_nat 0) with 1 in Hlt. lia.
+  - intros n t [Ht Hlt] Hc. destruct (hav_step2 x U D HU t Ht Hc) as [Ht' E].
+    split; [exact Ht'|]. rewrite Nat2Z.inj_succ, Z.pow_succ_r in Hlt by lia. lia.
+  - split; [exact H0|]. pose proof (AI_vh _ _ _ _ H0). pose proof (pow2_fuel 128 fuel ltac:(lia)). lia.
+Qed.
+
 (* ------------------------------------------------------------------ the inner loop  while u > v *)
+Definition Uu (s : Z * Z * Z * Z * Z * Z) : Z := let '(u0, u1, u2, d0, d1, d2) := s in V3 u0 u1 u2.
+
 Definition UV (x v A U D : Z) : Prop :=
-  0 < U /\ U mod 2 = 1 /\ 0 <= D /\ (M | D * x - (-1) * U) /\
+  0 < U /\ U mod 2 = 1 /\ 0 <= D /\ (M | D * x - (-1) * U) /\ RP x U v /\
   exists n, pot U v n /\ 2 * A <= (n + 2) * M /\ 2 * D <= (n + 2) * M.
 
 Definition UI (x v A : Z) (s : Z * Z * Z * Z * Z * Z) : Prop :=
@@ -312,20 +434,21 @@ Proof.
     split; intros; try discriminate; lia.
 Qed.
 
-Lemma HV_exit_odd x sg o Ko h K : HV x sg o Ko h K -> h mod 2 <> 0 ->
-  exists n, pot h o n /\ 2 * Ko <= (n + 2) * M /\ 2 * K <= (n + 2) * M.
-Proof.
-  intros (_ & _ & _ & n & Hp & HKo & Hor) Hodd. exists n. split; [exact Hp|]. split; [exact HKo|].
-  destruct Hor as [Ht|[He _]]; [exact Ht|contradiction].
-Qed.
+Definition swap6 (r : option (Z * Z * Z * Z * Z * Z)) : option (Z * Z * Z * Z * Z * Z) :=
+  match r with
+  | None => None
+  | Some (d0, d1, d2, u0, u1, u2) => Some (u0, u1, u2, d0, d1, d2)
+  end.
 
-Lemma ul_step fuel x v a0 a1 a2 :
+(* the straight-line part of the body: u - v and d + a are exact; the halving loop starts from an even u *)
+Lemma ul_prefix fuel x v a0 a1 a2 :
   0 < v < 2^128 -> v mod 2 = 1 -> L3 a0 a1 a2 -> (M | V3 a0 a1 a2 * x - 1 * v) ->
-  forall s s', UI x v (V3 a0 a1 a2) s -> ul_cond v s = true -> ul_body fuel v a0 a1 a2 s = Some s' ->
-  UI x v (V3 a0 a1 a2) s'.
+  forall s, UI x v (V3 a0 a1 a2) s -> ul_cond v s = true ->
+  exists t, HI x v (V3 a0 a1 a2) t /\ Uh t = Uu s - v /\ Uh t mod 2 = 0 /\
+            ul_body fuel v a0 a1 a2 s = swap6 (while_loop fuel hdu_cond hdu_body t).
 Proof.
-  intros Hv Hvo La Hcg [[[[[u0 u1] u2] d0] d1] d2] s'. unfold UI at 1, ul_body.
-  intros (Lu & Ld & HU & HUo & HD & Hcd & n & Hp & HnA & HnD) Hc.
+  intros Hv Hvo La Hcg [[[[[u0 u1] u2] d0] d1] d2]. unfold UI, Uu, ul_body.
+  intros (Lu & Ld & HU & HUo & HD & Hcd & Hrp & n & Hp & HnA & HnD) Hc.
   pose proof (V3_nonneg _ _ _ La) as HA. set (A := V3 a0 a1 a2) in *.
   apply (proj1 (ul_cond_spec v u0 u1 u2 d0 d1 d2 Lu)) in Hc.
   destruct (limbs128 v ltac:(lia)) as (Lv & Ev).
@@ -345,30 +468,71 @@ Proof.
   destruct (f128_add_192x192 d0 d1 d2 a0 a1 a2) as [[d0' d1'] d2'].
   destruct Ha as (D0' & D1' & D2' & Ed). fold (V3 d0' d1' d2') in Ed.
   set (U := V3 u0 u1 u2) in *. set (D := V3 d0 d1 d2) in *.
-  (* the halving loop *)
-  assert (I0 : HI x v A (d0', d1', d2', u0', u1', u2')).
-  { unfold HI. split; [repeat split; lia|]. split; [repeat split; lia|].
-    rewrite Eu, Ed. split; [lia|]. split; [lia|]. split.
-    - destruct Hcd as [k1 Hk1]. destruct Hcg as [k2 Hk2]. exists (k1 + k2).
-      replace ((D + A) * x - -1 * (U - v)) with ((D * x - -1 * U) + (A * x - 1 * v)) by ring.
-      rewrite Hk1, Hk2. ring.
-    - exists n. split; [apply (pot_le U); [lia|lia|exact Hp]|]. split; [exact HnA|]. right.
-      split; [|unfold M in *; lia].
-      pose proof (Z.div_mod U 2 ltac:(lia)). pose proof (Z.div_mod v 2 ltac:(lia)).
-      apply (mod_eq _ _ (U / 2 - v / 2)); lia. }
-  destruct (while_loop fuel hdu_cond hdu_body (d0', d1', d2', u0', u1', u2'))
-    as [[[[[[e0 e1] e2] w0] w1] w2]|] eqn:W; [|discriminate].
-  intros [= <-].
-  destruct (while_loop_inv (HI x v A) hdu_cond hdu_body (hdu_step x v A ltac:(lia)) fuel _ _ I0 W)
-    as ((Le & Lw & H) & Hc').
-  unfold hdu_cond in Hc'. rewrite land1 in Hc'. apply Z.eqb_neq in Hc'.
-  unfold UI. split; [exact Lw|]. split; [exact Le|].
-  assert (Hodd : V3 w0 w1 w2 mod 2 <> 0) by (rewrite V3_parity; exact Hc').
+  assert (Hev : (U - v) mod 2 = 0).
+  { pose proof (Z.div_mod U 2 ltac:(lia)). pose proof (Z.div_mod v 2 ltac:(lia)).
+    apply (mod_eq _ _ (U / 2 - v / 2)); lia. }
+  exists (d0', d1', d2', u0', u1', u2'). unfold HI, Uh. rewrite Eu, Ed.
+  split; [|split; [reflexivity|split; [exact Hev|reflexivity]]].
+  split; [repeat split; lia|]. split; [repeat split; lia|].
+  split; [lia|]. split; [lia|]. split.
+  { destruct Hcd as [k1 Hk1]. destruct Hcg as [k2 Hk2]. exists (k1 + k2).
+    replace ((D + A) * x - -1 * (U - v)) with ((D * x - -1 * U) + (A * x - 1 * v)) by ring.
+    rewrite Hk1, Hk2. ring. }
+  split; [apply RP_sub; exact Hrp|].
+  exists n. split; [apply (pot_le U); [lia|lia|exact Hp]|]. split; [exact HnA|]. right.
+  split; [exact Hev|unfold M in *; lia].
+Qed.
+
+Lemma ul_step2 fuel x v a0 a1 a2 :
+  0 < v < 2^128 -> v mod 2 = 1 -> L3 a0 a1 a2 -> (M | V3 a0 a1 a2 * x - 1 * v) ->
+  forall s s', UI x v (V3 a0 a1 a2) s -> ul_cond v s = true -> ul_body fuel v a0 a1 a2 s = Some s' ->
+  UI x v (V3 a0 a1 a2) s' /\ 2 * Uu s' < Uu s.
+Proof.
+  intros Hv Hvo La Hcg s s' Hs Hc.
+  destruct (ul_prefix fuel x v a0 a1 a2 Hv Hvo La Hcg s Hs Hc) as (t & Ht & EU & Hev & ->).
+  destruct (while_loop fuel hdu_cond hdu_body t) as [[[[[[e0 e1] e2] w0] w1] w2]|] eqn:W; [|discriminate].
+  cbn [swap6]. intros [= <-].
+  destruct (hdu_rel x v _ fuel _ _ ltac:(lia) Ht W) as ((Le & Lw & H) & Hodd & Hrel).
+  specialize (Hrel Hev). unfold Uh in Hodd, Hrel at 1. unfold UI, Uu at 1.
+  split; [|lia].
+  split; [exact Lw|]. split; [exact Le|].
   destruct (HV_exit_odd _ _ _ _ _ _ H Hodd) as (n' & Hp' & HA' & HD').
-  destruct H as (Hw & He & Hcg' & _).
+  destruct H as (Hw & He & Hcg' & Hrp' & _).
   split; [exact Hw|]. split.
   { pose proof (Z.mod_pos_bound (V3 w0 w1 w2) 2 ltac:(lia)). lia. }
-  split; [exact He|]. split; [exact Hcg'|]. exists n'. auto.
+  split; [exact He|]. split; [exact Hcg'|]. split; [exact Hrp'|]. exists n'. auto.
+Qed.
+
+Lemma ul_total fuel x v a0 a1 a2 :
+  0 < v < 2^128 -> v mod 2 = 1 -> L3 a0 a1 a2 -> (M | V3 a0 a1 a2 * x - 1 * v) -> (192 <= fuel)%nat ->
+  forall s, UI x v (V3 a0 a1 a2) s -> ul_cond v s = true -> exists s', ul_body fuel v a0 a1 a2 s = Some s'.
+Proof.
+  intros Hv Hvo La Hcg Hf s Hs Hc.
+  destruct (ul_prefix fuel x v a0 a1 a2 Hv Hvo La Hcg s Hs Hc) as (t & Ht & EU & Hev & ->).
+  destruct (hdu_total x v _ fuel t ltac:(lia) Ht Hf) as [[[[[[e0 e1] e2] w0] w1] w2] ->].
+  cbn [swap6]. eauto.
+Qed.
+
+Lemma UI_Uu x v A s : UI x v A s -> 0 < Uu s < 2^192.
+Proof.
+  destruct s as [[[[[u0 u1] u2] d0] d1] d2]. unfold UI, Uu. intros (Lu & _ & Hh & _).
+  pose proof (V3_nonneg _ _ _ Lu). lia.
+Qed.
+
+Lemma uloop_total fuel x v a0 a1 a2 :
+  0 < v < 2^128 -> v mod 2 = 1 -> L3 a0 a1 a2 -> (M | V3 a0 a1 a2 * x - 1 * v) -> (192 <= fuel)%nat ->
+  forall s, UI x v (V3 a0 a1 a2) s ->
+  exists s', while_loop_o fuel (ul_cond v) (ul_body fuel v a0 a1 a2) s = Some s'.
+Proof.
+  intros Hv Hvo La Hcg Hf s Hs.
+  apply (while_loop_o_term (fun n t => UI x v (V3 a0 a1 a2) t /\ Uu t < 2 ^ Z.of_nat n)).
+  - intros t [Ht Hlt]. pose proof (UI_Uu _ _ _ _ Ht). change (2 ^ Z.of_nat 0) with 1 in Hlt. lia.
+  - intros n t [Ht Hlt] Hc.
+    destruct (ul_total fuel x v a0 a1 a2 Hv Hvo La Hcg Hf t Ht Hc) as [t' Et].
+    destruct (ul_step2 fuel x v a0 a1 a2 Hv Hvo La Hcg t t' Ht Hc Et) as [Ht' Hlt'].
+    exists t'. split; [exact Et|]. split; [exact Ht'|].
+    pose proof (UI_Uu _ _ _ _ Ht'). rewrite Nat2Z.inj_succ, Z.pow_succ_r in Hlt by lia. lia.
+  - split; [exact Hs|]. pose proof (UI_Uu _ _ _ _ Hs). pose proof (pow2_fuel 192 fuel ltac:(lia)). lia.
 Qed.
 
 (* ------------------------------------------------------------------ the outer loop  while v != 1 *)
@@ -379,18 +543,39 @@ Definition OI (x : Z) (s : st10) : Prop :=
   let '(u0, u1, u2, d0, d1, d2, v, a0, a1, a2) := s in
   L3 u0 u1 u2 /\ L3 d0 d1 d2 /\ L3 a0 a1 a2 /\ OV x (V3 u0 u1 u2) (V3 d0 d1 d2) v (V3 a0 a1 a2).
 
-Lemma ol_step fuel x : forall s s', OI x s -> ol_cond s = true -> ol_body fuel s = Some s' -> OI x s'.
+Definition vo (s : st10) : Z := let '(u0, u1, u2, d0, d1, d2, v, a0, a1, a2) := s in v.
+
+Definition join10 (w : Z * Z * Z * Z * Z * Z) (r : option (Z * Z * Z * Z)) : option st10 :=
+  let '(u0, u1, u2, d0, d1, d2) := w in
+  match r with
+  | None => None
+  | Some (a0, a1, a2, v) => Some (u0, u1, u2, d0, d1, d2, v, a0, a1, a2)
+  end.
+
+Definition ol_inner (fuel : nat) (s : st10) : option (Z * Z * Z * Z * Z * Z) :=
+  let '(u0, u1, u2, d0, d1, d2, v, a0, a1, a2) := s in
+  while_loop_o fuel (ul_cond v) (ul_body fuel v a0 a1 a2) (u0, u1, u2, d0, d1, d2).
+
+(* after the inner loop: v - u and a + d are exact; the halving loop starts from an even v - u *)
+Lemma ol_prefix fuel x s w : OI x s -> ol_inner fuel s = Some w ->
+  exists t, AI x (Uu w) (let '(_, _, _, d0, d1, d2) := w in V3 d0 d1 d2) t /\
+            0 < Uu w /\ vh t = vo s - Uu w /\ 0 <= vh t /\ vh t mod 2 = 0 /\
+            (Z.gcd x M = 1 -> vo s <> 1 -> 0 < vh t) /\
+            (forall t', AI x (Uu w) (let '(_, _, _, d0, d1, d2) := w in V3 d0 d1 d2) t' ->
+                        0 < vh t' -> vh t' mod 2 <> 0 -> 2 * vh t' <= vh t ->
+                        forall s', join10 w (Some t') = Some s' -> OI x s' /\ 2 * vo s' < vo s) /\
+            ol_body fuel s = join10 w (while_loop fuel hav_cond hav_body t).
 Proof.
-  intros [[[[[[[[[u0 u1] u2] d0] d1] d2] v] a0] a1] a2] s'. unfold OI at 1, ol_body.
-  intros (Lu & Ld & La & Hv & Hvo & Hcg & HUV) _.
-  destruct (while_loop_o fuel (ul_cond v) (ul_body fuel v a0 a1 a2) (u0, u1, u2, d0, d1, d2))
-    as [[[[[[w0 w1] w2] e0] e1] e2]|] eqn:W; [|discriminate].
+  destruct s as [[[[[[[[[u0 u1] u2] d0] d1] d2] v] a0] a1] a2].
+  destruct w as [[[[[w0 w1] w2] e0] e1] e2]. unfold OI, ol_inner, vo, Uu, ol_body.
+  intros (Lu & Ld & La & Hv & Hvo & Hcg & HUV) W. rewrite W.
   assert (I0 : UI x v (V3 a0 a1 a2) (u0, u1, u2, d0, d1, d2)) by (unfold UI; auto).
   destruct (while_loop_o_inv (UI x v (V3 a0 a1 a2)) (ul_cond v) (ul_body fuel v a0 a1 a2)
-              (ul_step fuel x v a0 a1 a2 Hv Hvo La Hcg) fuel _ _ I0 W) as ((Lw & Le & HUV') & Hc).
+              (fun s s' Hs Hc Hb => proj1 (ul_step2 fuel x v a0 a1 a2 Hv Hvo La Hcg s s' Hs Hc Hb))
+              fuel _ _ I0 W) as ((Lw & Le & HUV') & Hc).
   clear I0 W HUV Lu Ld u0 u1 u2 d0 d1 d2.
   apply (proj2 (ul_cond_spec v w0 w1 w2 e0 e1 e2 Lw)) in Hc. destruct Hc as (Hw2 & Hle).
-  destruct HUV' as (HU & HUo & HD & Hcd & n & Hp & HnA & HnD).
+  destruct HUV' as (HU & HUo & HD & Hcd & Hrp & n & Hp & HnA & HnD).
   pose proof Lw as (W0 & W1 & W2). pose proof Le as (E0 & E1 & E2). pose proof La as (A0 & A1 & A2).
   rewrite low128 by assumption.
   assert (EU : V3 w0 w1 w2 = w0 + w1 * 2^64) by (unfold V3; subst w2; ring).
@@ -405,42 +590,105 @@ Proof.
   specialize (Ha ltac:(unfold M in *; lia)).
   destruct (f128_add_192x192 a0 a1 a2 e0 e1 e2) as [[a0' a1'] a2'].
   destruct Ha as (A0' & A1' & A2' & Ea). fold (V3 a0' a1' a2') in Ea.
-  assert (I0 : AI x U D (a0', a1', a2', v - U)).
-  { unfold AI. split; [repeat split; lia|]. split; [lia|].
+  assert (Hev : (v - U) mod 2 = 0).
+  { pose proof (Z.div_mod U 2 ltac:(lia)). pose proof (Z.div_mod v 2 ltac:(lia)).
+    apply (mod_eq _ _ (v / 2 - U / 2)); lia. }
+  exists (a0', a1', a2', v - U). unfold vh.
+  split; [|split; [exact HU|split; [reflexivity|split; [lia|split; [exact Hev|split; [|split; [|reflexivity]]]]]]].
+  - unfold AI. split; [repeat split; lia|]. split; [lia|].
     destruct (Z.eq_dec (v - U) 0) as [E|E]; [left; exact E|right].
     rewrite Ea. split; [lia|]. split; [lia|]. split.
-    - destruct Hcd as [k1 Hk1]. destruct Hcg as [k2 Hk2]. exists (k1 + k2).
+    { destruct Hcd as [k1 Hk1]. destruct Hcg as [k2 Hk2]. exists (k1 + k2).
       replace ((A + D) * x - 1 * (v - U)) with ((D * x - -1 * U) + (A * x - 1 * v)) by ring.
-      rewrite Hk1, Hk2. ring.
-    - exists n. split; [apply (pot_le v); [lia|lia|apply pot_sym; exact Hp]|]. split; [exact HnD|]. right.
-      split; [|unfold M in *; lia].
-      pose proof (Z.div_mod U 2 ltac:(lia)). pose proof (Z.div_mod v 2 ltac:(lia)).
-      apply (mod_eq _ _ (v / 2 - U / 2)); lia. }
-  destruct (while_loop fuel hav_cond hav_body (a0', a1', a2', v - U))
-    as [[[[b0 b1] b2] v']|] eqn:W; [|discriminate].
-  intros [= <-].
-  destruct (while_loop_inv (AI x U D) hav_cond hav_body (hav_step x U D HU) fuel _ _ I0 W)
-    as ((Lb & Hv' & H) & Hc').
-  unfold hav_cond in Hc'. rewrite land1 in Hc'. apply Z.eqb_neq in Hc'.
-  destruct H as [->|H]; [exfalso; apply Hc'; reflexivity|].
-  destruct (HV_exit_odd _ _ _ _ _ _ H Hc') as (n' & Hp' & HD' & HA').
-  destruct H as (Hv'0 & Hb & Hcg' & _).
-  unfold OI. split; [exact Lw|]. split; [exact Le|]. split; [exact Lb|].
-  unfold OV. split; [lia|]. split.
-  { pose proof (Z.mod_pos_bound v' 2 ltac:(lia)). lia. }
-  split; [exact Hcg'|].
-  unfold UV. split; [exact HU|]. split; [exact HUo|]. split; [exact HD|]. split; [exact Hcd|].
-  exists n'. split; [apply pot_sym; exact Hp'|]. auto.
+      rewrite Hk1, Hk2. ring. }
+    split; [apply RP_sub, RP_sym; exact Hrp|].
+    exists n. split; [apply (pot_le v); [lia|lia|apply pot_sym; exact Hp]|]. split; [exact HnD|]. right.
+    split; [exact Hev|unfold M in *; lia].
+  - (* u = v is impossible when gcd(x, M) = 1 and v <> 1 *)
+    intros Hg Hv1. destruct (Z.eq_dec U v) as [E|E]; [|lia].
+    exfalso. apply Hv1. rewrite <- E in *. exact (RP_diag x U Hg HU Hrp).
+  - intros [[[b0 b1] b2] v']. unfold AI. intros (Lb & Hv' & H) Hpos Hodd Hhalf s'.
+    cbn [join10]. intros [= <-].
+    destruct H as [->|H]; [lia|].
+    destruct (HV_exit_odd _ _ _ _ _ _ H Hodd) as (n' & Hp' & HD' & HA').
+    destruct H as (Hv'0 & Hb & Hcg' & Hrp' & _).
+    split; [|lia].
+    split; [exact Lw|]. split; [exact Le|]. split; [exact Lb|].
+    unfold OV. split; [lia|]. split.
+    { pose proof (Z.mod_pos_bound v' 2 ltac:(lia)). lia. }
+    split; [exact Hcg'|].
+    unfold UV. split; [exact HU|]. split; [exact HUo|]. split; [exact HD|]. split; [exact Hcd|].
+    split; [apply RP_sym; exact Hrp'|].
+    exists n'. split; [apply pot_sym; exact Hp'|]. auto.
+Qed.
+
+Lemma ol_step2 fuel x : forall s s', OI x s -> ol_cond s = true -> ol_body fuel s = Some s' ->
+  OI x s' /\ 2 * vo s' < vo s.
+Proof.
+  intros s s' Hs _.
+  destruct (ol_inner fuel s) as [w|] eqn:W.
+  - destruct (ol_prefix fuel x s w Hs W) as (t & Ht & HU & Ev & Hv0 & Hev & _ & Hfin & ->).
+    destruct (while_loop fuel hav_cond hav_body t) as [t'|] eqn:W2;
+      [|destruct w as [[[[[? ?] ?] ?] ?] ?]; discriminate].
+    intros Hj.
+    destruct (hav_rel x _ _ fuel t t' HU Ht W2) as (Ht' & Hodd & Hrel).
+    pose proof (AI_vh _ _ _ _ Ht') as Hr.
+    apply (Hfin t' Ht'); [|exact Hodd|exact (Hrel Hev)|exact Hj].
+    destruct (Z.eq_dec (vh t') 0) as [E|E]; [|lia]. rewrite E in Hodd. exfalso. apply Hodd. reflexivity.
+  - destruct s as [[[[[[[[[u0 u1] u2] d0] d1] d2] v] a0] a1] a2]. unfold ol_inner in W. unfold ol_body.
+    rewrite W. discriminate.
+Qed.
+
+Lemma ol_step fuel x : forall s s', OI x s -> ol_cond s = true -> ol_body fuel s = Some s' -> OI x s'.
+Proof. intros s s' Hs Hc Hb. exact (proj1 (ol_step2 fuel x s s' Hs Hc Hb)). Qed.
+
+Lemma ol_total fuel x : Z.gcd x M = 1 -> (192 <= fuel)%nat ->
+  forall s, OI x s -> ol_cond s = true -> exists s', ol_body fuel s = Some s'.
+Proof.
+  intros Hg Hf s Hs Hc.
+  assert (Hv1 : vo s <> 1).
+  { destruct s as [[[[[[[[[u0 u1] u2] d0] d1] d2] v] a0] a1] a2]. unfold ol_cond in Hc. unfold vo.
+    apply negb_true_iff, Z.eqb_neq in Hc. exact Hc. }
+  assert (Hin : exists w, ol_inner fuel s = Some w).
+  { destruct s as [[[[[[[[[u0 u1] u2] d0] d1] d2] v] a0] a1] a2]. unfold ol_inner.
+    destruct Hs as (Lu & Ld & La & Hv & Hvo & Hcg & HUV).
+    apply (uloop_total fuel x v a0 a1 a2 Hv Hvo La Hcg Hf). unfold UI. auto. }
+  destruct Hin as [w W].
+  destruct (ol_prefix fuel x s w Hs W) as (t & Ht & HU & Ev & Hv0 & Hev & Hpos & _ & ->).
+  destruct (hav_total x _ _ fuel t HU Ht (Hpos Hg Hv1) ltac:(lia)) as [[[[b0 b1] b2] v'] ->].
+  destruct w as [[[[[w0 w1] w2] e0] e1] e2]. cbn [join10]. eauto.
+Qed.
+
+Lemma OI_vo x s : OI x s -> 0 < vo s < 2^128.
+Proof.
+  destruct s as [[[[[[[[[u0 u1] u2] d0] d1] d2] v] a0] a1] a2]. unfold OI, vo.
+  intros (_ & _ & _ & H & _). exact H.
+Qed.
+
+Lemma oloop_total fuel x : Z.gcd x M = 1 -> (192 <= fuel)%nat ->
+  forall s, OI x s -> exists s', while_loop_o fuel ol_cond (ol_body fuel) s = Some s'.
+Proof.
+  intros Hg Hf s Hs.
+  apply (while_loop_o_term (fun n t => OI x t /\ vo t < 2 ^ Z.of_nat n)).
+  - intros t [Ht Hlt]. pose proof (OI_vo _ _ Ht). change (2 ^ Z.of_nat 0) with 1 in Hlt. lia.
+  - intros n t [Ht Hlt] Hc.
+    destruct (ol_total fuel x Hg Hf t Ht Hc) as [t' Et].
+    destruct (ol_step2 fuel x t t' Ht Hc Et) as [Ht' Hlt'].
+    exists t'. split; [exact Et|]. split; [exact Ht'|].
+    pose proof (OI_vo _ _ Ht'). rewrite Nat2Z.inj_succ, Z.pow_succ_r in Hlt by lia. lia.
+  - split; [exact Hs|]. pose proof (OI_vo _ _ Hs). pose proof (pow2_fuel 128 fuel ltac:(lia)). lia.
 Qed.
 
 (* ------------------------------------------------------------------ final reduction  while a >= M *)
+Definition Af (s : Z * Z * Z * Z) : Z := let '(a0, a1, a2, a) := s in V3 a0 a1 a2.
+
 Definition FI (x : Z) (s : Z * Z * Z * Z) : Prop :=
   let '(a0, a1, a2, a) := s in
   L3 a0 a1 a2 /\ a = a0 + a1 * 2^64 /\ (M | V3 a0 a1 a2 * x - 1).
 
-Lemma fin_step x : forall s, FI x s -> fin_cond s = true -> FI x (fin_body s).
+Lemma fin_step2 x : forall s, FI x s -> fin_cond s = true -> FI x (fin_body s) /\ Af (fin_body s) = Af s - M.
 Proof.
-  intros [[[a0 a1] a2] a]. unfold FI, fin_cond, fin_body. cbv zeta.
+  intros [[[a0 a1] a2] a]. unfold FI, Af, fin_cond, fin_body. cbv zeta.
   intros (La & Ea & Hcg) Hc. pose proof La as (A0 & A1 & A2).
   rewrite M_lo, M_hi. rewrite M_eq, Z.gtb_ltb, Z.geb_leb in Hc.
   assert (HM : M <= V3 a0 a1 a2).
@@ -451,11 +699,29 @@ Proof.
   unfold V3 in HM. rewrite M_limbs in HM. specialize (Hs ltac:(lia)).
   destruct (f128_sub_192x192 a0 a1 a2 (2^64 - C) (2^64 - 1) 0) as [[b0 b1] b2].
   destruct Hs as (B0 & B1 & B2 & Eb).
+  assert (E : V3 b0 b1 b2 = V3 a0 a1 a2 - M) by (unfold V3; rewrite M_limbs; lia).
+  split; [|exact E].
   split; [repeat split; lia|]. split; [apply low128; lia|].
   destruct Hcg as [k Hk]. exists (k - x).
-  assert (E : V3 b0 b1 b2 = V3 a0 a1 a2 - M) by (unfold V3; rewrite M_limbs; lia).
   rewrite E. replace ((V3 a0 a1 a2 - M) * x - 1) with (V3 a0 a1 a2 * x - 1 - x * M) by ring.
   rewrite Hk. ring.
+Qed.
+
+Lemma fin_step x : forall s, FI x s -> fin_cond s = true -> FI x (fin_body s).
+Proof. intros s H Hc. exact (proj1 (fin_step2 x s H Hc)). Qed.
+
+Lemma fin_total x fuel s : FI x s -> Af s < (Z.of_nat fuel + 1) * M ->
+  exists s', while_loop fuel fin_cond fin_body s = Some s'.
+Proof.
+  intros H0 Hb.
+  apply (while_loop_term (fun n t => FI x t /\ Af t < (Z.of_nat n + 1) * M) fin_cond fin_body).
+  - intros [[[a0 a1] a2] a]. unfold FI, Af, fin_cond. intros ((La & Ea & _) & Hlt).
+    pose proof La as (A0 & A1 & A2). unfold V3 in Hlt. rewrite M_eq, Z.gtb_ltb, Z.geb_leb.
+    change (Z.of_nat 0 + 1) with 1 in Hlt.
+    destruct (Z.ltb_spec 0 a2); destruct (Z.leb_spec M a); cbn [orb]; try reflexivity; unfold M in *; lia.
+  - intros n t [Ht Hlt] Hc. destruct (fin_step2 x t Ht Hc) as [Ht' E].
+    split; [exact Ht'|]. rewrite Nat2Z.inj_succ in Hlt. unfold M in *. lia.
+  - split; assumption.
 Qed.
 
 (* ------------------------------------------------------------------ initial state *)
@@ -467,8 +733,8 @@ Proof.
   destruct (limbs128 x ltac:(unfold M in *; lia)) as (Lx & Ex).
   pose proof Lx as (X0 & X1 & X2).
   assert (Ld : L3 (wrap 64 (wrap 64 f128_M - 1)) (wrap 64 (shr f128_M 64)) 0)
-    by (repeat split; (discriminate || reflexivity)).
-  assert (Ed : V3 (wrap 64 (wrap 64 f128_M - 1)) (wrap 64 (shr f128_M 64)) 0 = M - 1) by reflexivity.
+    by (unfold L3; vm_compute; repeat split; (discriminate || reflexivity)).
+  assert (Ed : V3 (wrap 64 (wrap 64 f128_M - 1)) (wrap 64 (shr f128_M 64)) 0 = M - 1) by (vm_compute; reflexivity).
   assert (La : L3 0 0 0) by (repeat split; lia).
   assert (Hfin : forall u0 u1 u2, L3 u0 u1 u2 -> V3 u0 u1 u2 mod 2 = 1 ->
             (V3 u0 u1 u2 = x \/ V3 u0 u1 u2 = x + M) ->
@@ -479,6 +745,10 @@ Proof.
     { exists (-1). ring. }
     unfold UV. split; [lia|]. split; [exact Hodd|]. split; [unfold M; lia|]. split.
     { destruct HU as [->| ->]; [exists x|exists (x + 1)]; ring. }
+    split.
+    { intros g HgU HgM. apply Z.gcd_greatest; [|exact HgM].
+      destruct HU as [E|E]; rewrite E in HgU; [exact HgU|].
+      replace x with ((x + M) - M) by ring. apply Z.divide_sub_r; assumption. }
     exists 0. split; [|unfold M; lia].
     split; [lia|]. rewrite Z.pow_0_r, Z.mul_1_r. unfold M in *. lia. }
   destruct (Z.eqb_spec (x mod 2) 1) as [E|E].
@@ -526,4 +796,99 @@ Proof.
   assert (EV : V3 b0 b1 0 = b) by (unfold V3; lia). rewrite EV in Hcg'.
   split; [lia|]. destruct Hcg' as [k Hk].
   apply (mod_eq _ _ k); [unfold M; lia|lia].
+Qed.
+
+(* ------------------------------------------------------------------ termination
+   every loop halves u or v; u = v (which would make v = 0 and the loop spin) can only happen at
+   u = v = 1 when gcd(x, M) = 1, which holds for every 0 < x < M because M is prime
+   (primality is proved separately and is a hypothesis here). *)
+Theorem f128_inv_terminates fuel x : repr128 x -> (x <> 0 -> Z.gcd x M = 1) -> (192 <= fuel)%nat ->
+  exists r, f128_fn_inv fuel x = Some r.
+Proof.
+  unfold repr128. intros Hx Hg Hf. rewrite f128_fn_inv_unfold.
+  destruct (Z.eqb_spec x 0) as [->|Hnz]; [eauto|].
+  specialize (Hg Hnz).
+  pose proof (inv_init_spec x ltac:(lia)) as I0.
+  destruct (inv_init_u x) as [[u0 u1] u2].
+  destruct (oloop_total fuel x Hg Hf _ I0) as [s' W].
+  rewrite W.
+  destruct (while_loop_o_inv (OI x) ol_cond (ol_body fuel) (ol_step fuel x) fuel _ _ I0 W) as (Hs' & Hc).
+  destruct s' as [[[[[[[[[w0 w1] w2] e0] e1] e2] v] a0] a1] a2].
+  destruct Hs' as (Lw & Le & La & Hv & Hvo & Hcg & HU & _ & _ & _ & _ & n & Hp & HnA & _).
+  unfold ol_cond in Hc. apply negb_false_iff, Z.eqb_eq in Hc. subst v.
+  pose proof La as (A0 & A1 & A2).
+  assert (F0 : FI x (a0, a1, a2, wrap 128 (a0 + shl 128 a1 64))).
+  { unfold FI. split; [exact La|]. split; [apply low128; lia|exact Hcg]. }
+  pose proof (pot_bound _ 1 n HU ltac:(lia) Hp) as Hn. pose proof Hp as [Hn0 _].
+  destruct (fin_total x fuel _ F0) as [[[[b0 b1] b2] b] ->]; [|eauto].
+  unfold Af. unfold M in *. lia.
+Qed.
+
+Theorem f128_inv_total fuel x : repr128 x -> (x <> 0 -> Z.gcd x M = 1) -> (192 <= fuel)%nat ->
+  exists r, f128_fn_inv fuel x = Some r /\ repr128 r /\ (r * x) mod M = (if x =? 0 then 0 else 1).
+Proof.
+  intros Hx Hg Hf. destruct (f128_inv_terminates fuel x Hx Hg Hf) as [r E].
+  exists r. split; [exact E|]. exact (f128_inv_sound_partial fuel x r Hx E).
+Qed.
+
+Theorem f128_inv_sound_partial' fuel x r : repr128 x -> f128_inv fuel x = Some r ->
+  repr128 r /\ (r * x) mod M = (if x =? 0 then 0 else 1).
+Proof.
+  intros Hx. unfold f128_inv.
+  destruct (f128_fn_inv fuel x) as [i|] eqn:E; [|discriminate].
+  intros [= <-]. exact (f128_inv_sound_partial fuel x i Hx E).
+Qed.
+
+Theorem f128_inv_zero fuel : f128_inv fuel 0 = Some 0.
+Proof. reflexivity. Qed.
+
+(* division = multiplication by the inverse; x / 0 = 0 *)
+Theorem f128_div_sound_partial fuel a b r : repr128 a -> repr128 b -> f128_div fuel a b = Some r ->
+  repr128 r /\ (b <> 0 -> (r * b) mod M = a) /\ (b = 0 -> r = 0).
+Proof.
+  intros Ha Hb. unfold f128_div.
+  destruct (f128_fn_inv fuel b) as [i|] eqn:E; [|discriminate].
+  intros [= <-]. destruct (f128_inv_sound_partial fuel b i Hb E) as (Hi & Hib).
+  rewrite (proj1 (f128_fn_mul_both a i Ha Hi)).
+  split; [apply repr128_mod|]. split.
+  - intros Hnz. destruct (Z.eqb_spec b 0) as [|_]; [contradiction|].
+    rewrite Z.mul_mod_idemp_l by (unfold M; lia).
+    replace (a * i * b) with (a * (i * b)) by ring.
+    rewrite <- Z.mul_mod_idemp_r, Hib, Z.mul_1_r by (unfold M; lia).
+    apply Z.mod_small. exact Ha.
+  - intros ->. rewrite f128_fn_inv_unfold, Z.eqb_refl in E. injection E as <-.
+    rewrite Z.mul_0_r. reflexivity.
+Qed.
+
+Theorem f128_div_total fuel a b : repr128 a -> repr128 b -> (b <> 0 -> Z.gcd b M = 1) -> (192 <= fuel)%nat ->
+  exists r, f128_div fuel a b = Some r /\ repr128 r /\ (b <> 0 -> (r * b) mod M = a) /\ (b = 0 -> r = 0).
+Proof.
+  intros Ha Hb Hg Hf. destruct (f128_inv_terminates fuel b Hb Hg Hf) as [i E].
+  assert (Ed : f128_div fuel a b = Some (f128_fn_mul a i)) by (unfold f128_div; rewrite E; reflexivity).
+  exists (f128_fn_mul a i). split; [exact Ed|]. exact (f128_div_sound_partial fuel a b _ Ha Hb Ed).
+Qed.
+
+(* the hypotheses are satisfiable, and the generated term really runs *)
+Example f128_inv_example :
+  repr128 2 /\ Z.gcd 2 M = 1 /\ f128_fn_inv 192 2 = Some ((M + 1) / 2).
+Proof. split; [split; (discriminate || reflexivity)|]. split; vm_compute; reflexivity. Qed.
+
+(* with primality of M (proved in another file; a hypothesis here) the gcd condition disappears *)
+Lemma gcd_of_prime x : prime M -> 0 < x < M -> Z.gcd x M = 1.
+Proof.
+  intros Hp Hx. apply Zgcd_1_rel_prime. apply rel_prime_le_prime; [exact Hp|lia].
+Qed.
+
+Theorem f128_inv_total_prime : prime M -> forall fuel x, repr128 x -> (192 <= fuel)%nat ->
+  exists r, f128_fn_inv fuel x = Some r /\ repr128 r /\ (r * x) mod M = (if x =? 0 then 0 else 1).
+Proof.
+  intros Hp fuel x Hx Hf. apply f128_inv_total; [exact Hx| |exact Hf].
+  intros Hnz. apply gcd_of_prime; [exact Hp|unfold repr128 in Hx; lia].
+Qed.
+
+Theorem f128_div_total_prime : prime M -> forall fuel a b, repr128 a -> repr128 b -> (192 <= fuel)%nat ->
+  exists r, f128_div fuel a b = Some r /\ repr128 r /\ (b <> 0 -> (r * b) mod M = a) /\ (b = 0 -> r = 0).
+Proof.
+  intros Hp fuel a b Ha Hb Hf. apply f128_div_total; [exact Ha|exact Hb| |exact Hf].
+  intros Hnz. apply gcd_of_prime; [exact Hp|unfold repr128 in Hb; lia].
 Qed.
